@@ -4,6 +4,7 @@ import (
 	"context"
 	"fmt"
 	"strings"
+	"sync"
 	"time"
 
 	"github.com/celestiaorg/go-header/p2p"
@@ -19,7 +20,12 @@ func init() { cmds["C10"] = runC10 }
 
 // a real pruned store: heights tail..head of an n-chain
 func prunedStore(n, tail int) (*store.Store[*vhdr.Header], []*vhdr.Header) {
-	chain := vhdr.Chain("A", n, time.Now().Add(-time.Hour).UnixNano(), 1e9, 0)
+	return prunedStoreOf(n, n, tail)
+}
+
+// prunedStoreOf builds a chain of `total` headers and a store holding tail..n of it.
+func prunedStoreOf(total, n, tail int) (*store.Store[*vhdr.Header], []*vhdr.Header) {
+	chain := vhdr.Chain("A", total, time.Now().Add(-time.Hour).UnixNano(), 1e9, 0)
 	st, err := store.NewStore[*vhdr.Header](&memds.Plain{C: memds.NewCore()}, store.WithWriteBatchSize(16))
 	if err != nil {
 		panic(err)
@@ -29,7 +35,7 @@ func prunedStore(n, tail int) (*store.Store[*vhdr.Header], []*vhdr.Header) {
 		panic(err)
 	}
 	if n > 0 {
-		if err := st.Append(ctx, chain...); err != nil {
+		if err := st.Append(ctx, chain[:n]...); err != nil {
 			panic(err)
 		}
 		if err := st.Sync(ctx); err != nil {
@@ -53,6 +59,67 @@ func runC10(tier string, r *rng) {
 	for _, c := range cfgs {
 		c10Store(c.n, c.tail, tier, r)
 	}
+	for _, m := range [][5]uint64{{30, 10, 100, 30, 3}, {30, 10, 100, 28, 5}, {30, 10, 1, 30, 2}, {30, 1, 100, 31, 4}, {30, 10, 40, 5, 64}, {30, 10, 100, 25, 64}} {
+		c10Moving(int(m[0]), int(m[1]), int(m[2]), m[3], m[4])
+	}
+}
+
+// the store's head advances between the server's HasAt check and its Head() read: the reply must still be
+// bounded by the request and exact
+func c10Moving(n, tail, grow int, origin, amount uint64) {
+	ctx := context.Background()
+	mn, hosts, err := peers.NewNet(2)
+	if err != nil {
+		panic(err)
+	}
+	defer mn.Close()
+	st, chain := prunedStoreOf(n+grow, n, tail)
+	defer st.Stop(ctx) //nolint:errcheck
+	rec := &peers.Recorder{Store: st}
+	var once sync.Once
+	rec.OnHasAt = func(uint64) {
+		once.Do(func() {
+			_ = st.Append(ctx, chain[n:]...)
+			_ = st.Sync(ctx)
+		})
+	}
+	srv, err := p2p.NewExchangeServer[*vhdr.Header](hosts[1], rec,
+		p2p.WithNetworkID[p2p.ServerParameters](peers.NetworkID),
+		p2p.WithRequestTimeout[p2p.ServerParameters](400*time.Millisecond))
+	if err != nil {
+		panic(err)
+	}
+	if err := srv.Start(ctx); err != nil {
+		panic(err)
+	}
+	defer srv.Stop(ctx) //nolint:errcheck
+	rec.Take()
+	t0 := time.Now()
+	frame := peers.Frame(&p2p_pb.HeaderRequest{Data: &p2p_pb.HeaderRequest_Origin{Origin: origin}, Amount: amount})
+	resps, end := peers.RawRequest(ctx, hosts[0], hosts[1].ID(), frame, 3*time.Second)
+	took := time.Since(t0)
+	_, reads := rec.Take()
+	var parts []string
+	for _, rp := range resps {
+		switch {
+		case rp.Status == int32(p2p_pb.StatusCode_NOT_FOUND):
+			parts = append(parts, "NF")
+		case rp.Status == int32(p2p_pb.StatusCode_OK) && rp.BodyOK && int(rp.H) >= 1 && int(rp.H) <= len(chain) && chain[rp.H-1].Hash().String() == rp.Hash:
+			parts = append(parts, utoa(rp.H))
+		default:
+			parts = append(parts, fmt.Sprintf("BAD(%d)", rp.Status))
+		}
+	}
+	reply := strings.Join(parts, ",")
+	if reply == "" {
+		reply = "-"
+	}
+	slow := 0
+	if took > 2*time.Second {
+		slow = 1
+	}
+	emit("C10 kind=moving tail=%d head=%d head0=%d origin=%d amount=%d => end=%s reply=%s reads=%d slow=%d calls=-",
+		tail, n+grow, n, origin, amount, end, reply, reads, slow)
 }
 
 func c10Store(n, tail int, tier string, r *rng) {
